@@ -272,6 +272,12 @@ fn c04_index_entry() {
     std::mem::forget(r);
 }
 
+/// Environment: the application may have installed a logger at any level; the worst case for
+/// echo_signature is that `debug` is enabled, so the level query is stubbed to the most verbose level.
+fn max_level_stub() -> log::LevelFilter {
+    log::LevelFilter::Trace
+}
+
 /// echo_signature is called by verify_signature on every signature blob before verification.
 fn c04_echo<const L: usize>() {
     let b: [u8; L] = kani::any();
@@ -281,30 +287,35 @@ fn c04_echo<const L: usize>() {
 #[kani::proof]
 #[kani::unwind(8)]
 #[kani::stub(alloc::fmt::format, fmt_stub)]
+#[kani::stub(log::max_level, max_level_stub)]
 fn c04_echo_0() {
     c04_echo::<0>()
 }
 #[kani::proof]
 #[kani::unwind(8)]
 #[kani::stub(alloc::fmt::format, fmt_stub)]
+#[kani::stub(log::max_level, max_level_stub)]
 fn c04_echo_1() {
     c04_echo::<1>()
 }
 #[kani::proof]
 #[kani::unwind(8)]
 #[kani::stub(alloc::fmt::format, fmt_stub)]
+#[kani::stub(log::max_level, max_level_stub)]
 fn c04_echo_4() {
     c04_echo::<4>()
 }
 #[kani::proof]
 #[kani::unwind(8)]
 #[kani::stub(alloc::fmt::format, fmt_stub)]
+#[kani::stub(log::max_level, max_level_stub)]
 fn c04_echo_5() {
     c04_echo::<5>()
 }
 #[kani::proof]
 #[kani::unwind(8)]
 #[kani::stub(alloc::fmt::format, fmt_stub)]
+#[kani::stub(log::max_level, max_level_stub)]
 fn c04_echo_6() {
     c04_echo::<6>()
 }
@@ -344,7 +355,7 @@ fn c04_accessors<const ITEMS: usize>() {
     let f = d.as_string_array();
     assert!(f.is_some() == (t == 8 || t == 9));
     let g = d.as_i18n_str();
-    assert!(g.is_some() == (t == 9) || ITEMS == 0);
+    assert!(g.is_some() == (t == 9 && ITEMS > 0), "i18n accessor: first item or nothing");
     let h = d.as_u16_array();
     assert!(h.is_some() == (t == 3));
     let i = d.as_u32_array();
@@ -371,7 +382,7 @@ fn c04_accessors_1() {
     c04_accessors::<1>()
 }
 #[kani::proof]
-#[kani::unwind(6)]
+#[kani::unwind(12)]
 #[kani::stub(alloc::fmt::format, fmt_stub)]
 fn c04_accessors_2() {
     c04_accessors::<2>()
